@@ -141,28 +141,34 @@ theorem findByNameAll_ok {n : String} {y : Symbol} : ∀ {ts : List Table}, Tabl
 
 /-! ### the invariant and the step relation -/
 
-/-- an instruction stream that decodes completely and whose jump / try targets are boundaries -/
-def StreamOK (a : Array UInt8) : Prop := Walk a 0 a.size ∧ TargetsOK a
+/-- an instruction stream that decodes completely, whose jump / try targets are boundaries and
+    whose CONSTANT / CLOSURE operands are below `nc` (the size of the constant pool) -/
+def StreamOK (nc : Nat) (a : Array UInt8) : Prop := Walk a 0 a.size ∧ TargetsOK nc a
+
+theorem StreamOK.mono {nc nc' : Nat} {a : Array UInt8} (h : StreamOK nc a) (hn : nc ≤ nc') : StreamOK nc' a :=
+  ⟨h.1, h.2.mono hn⟩
 
 /-- a compiled function in the constant pool: its locals fit the frame, its stream is fine -/
-def FnOK (f : CFn) : Prop := f.numLocals ≤ 256 ∧ StreamOK f.insts
-def ConstsOK (cs : Array Const) : Prop := ∀ c ∈ cs.toList, ∀ f, c = .fn f → FnOK f
+def FnOK (nc : Nat) (f : CFn) : Prop := f.numLocals ≤ 256 ∧ StreamOK nc f.insts
+def ConstsOK (cs : Array Const) : Prop := ∀ c ∈ cs.toList, ∀ f, c = .fn f → FnOK cs.size f
 
-theorem ConstsOK.push {cs : Array Const} (h : ConstsOK cs) {c : Const} (hc : ∀ f, c = .fn f → FnOK f) :
+theorem ConstsOK.push {cs : Array Const} (h : ConstsOK cs) {c : Const} (hc : ∀ f, c = .fn f → FnOK (cs.size + 1) f) :
     ConstsOK (cs.push c) := by
   intro c' hc' f hf
+  simp only [Array.size_push]
   simp at hc'
   rcases hc' with hc' | hc'
-  · exact h c' (by simpa using hc') f hf
+  · have := h c' (by simpa using hc') f hf
+    exact ⟨this.1, this.2.mono (by omega)⟩
   · subst hc'; exact hc f hf
 
 structure Inv (s : CState) : Prop where
   ne : s.tables ≠ []
   tabs : TablesOK s.tables
   walk : Walk s.insts 0 s.insts.size
-  loops : ∀ l ∈ s.loops, ∀ p, (p ∈ l.breaks ∨ p ∈ l.continues) → Bd s.insts p
+  loops : ∀ l ∈ s.loops, ∀ p, (p ∈ l.breaks ∨ p ∈ l.continues) → Bd s.insts p ∧ Jumpy s.insts p
   consts : ConstsOK s.constants
-  targets : TargetsOK s.insts
+  targets : TargetsOK s.constants.size s.insts
 
 structure Rel (s s' : CState) : Prop where
   tlen : s'.tables.length = s.tables.length
@@ -171,12 +177,15 @@ structure Rel (s s' : CState) : Prop where
   ltail : s'.loops.tail = s.loops.tail
   lhead : ∀ l l', s.loops.head? = some l → s'.loops.head? = some l' → ∀ p,
     (p ∈ l'.breaks → p ∈ l.breaks ∨ s.insts.size ≤ p) ∧ (p ∈ l'.continues → p ∈ l.continues ∨ s.insts.size ≤ p)
+  csz : s.constants.size ≤ s'.constants.size
 
 theorem Rel.refl (s : CState) : Rel s s :=
-  ⟨rfl, Pre.refl _, rfl, rfl, fun l l' h h' p => by rw [h] at h'; injection h' with h'; subst h'; exact ⟨.inl, .inl⟩⟩
+  ⟨rfl, Pre.refl _, rfl, rfl, fun l l' h h' p => by rw [h] at h'; injection h' with h'; subst h'; exact ⟨.inl, .inl⟩,
+   Nat.le_refl _⟩
 
 theorem Rel.trans {s s' s'' : CState} (h : Rel s s') (h' : Rel s' s'') : Rel s s'' := by
-  refine ⟨h'.tlen.trans h.tlen, h.pre.trans h'.pre, h'.llen.trans h.llen, h'.ltail.trans h.ltail, ?_⟩
+  refine ⟨h'.tlen.trans h.tlen, h.pre.trans h'.pre, h'.llen.trans h.llen, h'.ltail.trans h.ltail, ?_,
+    Nat.le_trans h.csz h'.csz⟩
   intro l l'' hl hl'' p
   have hlen := h.llen
   cases hs' : s'.loops with
@@ -201,14 +210,15 @@ theorem Rel.trans {s s' s'' : CState} (h : Rel s s') (h' : Rel s' s'') : Rel s s
 
 /-- a step that leaves the instruction stream and the loop stack alone -/
 theorem Rel.of_same {s s' : CState} (h1 : s'.tables.length = s.tables.length) (h2 : s'.insts = s.insts)
-    (h3 : s'.loops = s.loops) : Rel s s' := by
-  refine ⟨h1, by rw [h2]; exact Pre.refl _, by rw [h3], by rw [h3], ?_⟩
+    (h3 : s'.loops = s.loops) (h4 : s.constants.size ≤ s'.constants.size := by first | exact Nat.le_refl _ | simp) :
+    Rel s s' := by
+  refine ⟨h1, by rw [h2]; exact Pre.refl _, by rw [h3], by rw [h3], ?_, h4⟩
   intro l l' h h' p; rw [h3, h] at h'; injection h' with h'; subst h'; exact ⟨.inl, .inl⟩
 
 theorem Inv.of_tables {s s' : CState} (h : Inv s) (h1 : s'.tables ≠ []) (h2 : TablesOK s'.tables)
     (h3 : s'.insts = s.insts) (h4 : s'.loops = s.loops) (h5 : s'.constants = s.constants := by rfl) : Inv s' :=
   ⟨h1, h2, by rw [h3]; exact h.walk, by rw [h3, h4]; exact h.loops, by rw [h5]; exact h.consts,
-   by rw [h3]; exact h.targets⟩
+   by rw [h3, h5]; exact h.targets⟩
 
 /-- `GoodP P m`: from a state satisfying the invariant `m` does not panic; on normal termination
     the invariant holds again, the states are related, and the result satisfies `P`. -/
@@ -299,7 +309,7 @@ theorem good_modify_misc {f : CState → CState} (h1 : ∀ s, (f s).tables = s.t
   intro s hs
   apply Sat.modify
   exact ⟨hs.of_tables (by rw [h1]; exact hs.ne) (by rw [h1]; exact hs.tabs) (h2 s) (h3 s) (h4 s),
-    Rel.of_same (by rw [h1]) (h2 s) (h3 s), trivial⟩
+    Rel.of_same (by rw [h1]) (h2 s) (h3 s) (by rw [h4]; exact Nat.le_refl _), trivial⟩
 
 /-- `updateSym` with an update that does not touch scope, constant flag or literal -/
 theorem good_updateSym {name : String} {f : Symbol → Symbol}
@@ -321,20 +331,41 @@ theorem good_addConstant (k : CVal) : Good (addConstant k) := by
   · exact Sat.pure ⟨hs, Rel.refl s, trivial⟩
   · apply Sat.bind
     apply Sat.set
-    exact Sat.pure ⟨⟨hs.ne, hs.tabs, hs.walk, hs.loops, hs.consts.push (fun f hf => by cases hf), hs.targets⟩,
+    exact Sat.pure ⟨⟨hs.ne, hs.tabs, hs.walk, hs.loops, hs.consts.push (fun f hf => by cases hf),
+      hs.targets.mono (by simp)⟩,
       Rel.of_same rfl rfl rfl, trivial⟩
 
-theorem good_addFnConstant (f : CFn) (hf : FnOK f) : Good (addFnConstant f) := by
-  intro s hs
+theorem sat_addConstant {k : CVal} {s : CState} {Q : Nat → CState → Prop} (hs : Inv s)
+    (h : ∀ i s', Inv s' → Rel s s' → i < s'.constants.size → s'.insts = s.insts → Q i s') :
+    Sat (addConstant k) s Q := by
+  unfold addConstant
+  apply Sat.bind
+  apply Sat.get
+  split
+  · rename_i i hi
+    exact Sat.pure (h i s hs (Rel.refl s) (findConst_lt hi) rfl)
+  · apply Sat.bind
+    apply Sat.set
+    apply Sat.pure
+    exact h _ _ ⟨hs.ne, hs.tabs, hs.walk, hs.loops, hs.consts.push (fun f hf => by cases hf),
+      hs.targets.mono (by simp)⟩ (Rel.of_same rfl rfl rfl) (by simp) rfl
+
+theorem sat_addFnConstant {f : CFn} {s : CState} {Q : Nat → CState → Prop} (hs : Inv s)
+    (hf : FnOK s.constants.size f)
+    (h : ∀ i s', Inv s' → Rel s s' → i < s'.constants.size → s'.insts = s.insts → Q i s') :
+    Sat (addFnConstant f) s Q := by
   unfold addFnConstant
   apply Sat.bind
   apply Sat.get
   split
-  · exact Sat.pure ⟨hs, Rel.refl s, trivial⟩
+  · rename_i i hi
+    exact Sat.pure (h i s hs (Rel.refl s) (findFn_lt hi) rfl)
   · apply Sat.bind
     apply Sat.set
-    exact Sat.pure ⟨⟨hs.ne, hs.tabs, hs.walk, hs.loops, hs.consts.push (fun g hg => by injection hg with hg; subst hg; exact hf), hs.targets⟩,
-      Rel.of_same rfl rfl rfl, trivial⟩
+    apply Sat.pure
+    refine h _ _ ⟨hs.ne, hs.tabs, hs.walk, hs.loops,
+      hs.consts.push (fun g hg => by injection hg with hg; subst hg; exact ⟨hf.1, hf.2.mono (by omega)⟩),
+      hs.targets.mono (by simp)⟩ (Rel.of_same rfl rfl rfl) (by simp) rfl
 
 theorem goodP_resolve (name : String) : GoodP (fun r => ∀ y, r = some y → SymOK y) (resolve name) := by
   intro s hs
@@ -359,14 +390,16 @@ theorem goodP_resolve (name : String) : GoodP (fun r => ∀ y, r = some y → Sy
 /-! ### emit -/
 
 theorem Rel.of_pre {s s' : CState} (h1 : s'.tables.length = s.tables.length) (h2 : Pre s.insts s'.insts)
-    (h3 : s'.loops = s.loops) : Rel s s' := by
-  refine ⟨h1, h2, by rw [h3], by rw [h3], ?_⟩
+    (h3 : s'.loops = s.loops) (h4 : s.constants.size ≤ s'.constants.size := by first | exact Nat.le_refl _ | simp) :
+    Rel s s' := by
+  refine ⟨h1, h2, by rw [h3], by rw [h3], ?_, h4⟩
   intro l l' h h' p; rw [h3, h] at h'; injection h' with h'; subst h'; exact ⟨.inl, .inl⟩
 
 /-- transfer of a relation along states that agree on what the relation looks at -/
 theorem Rel.transfer {a b a' b' : CState} (h : Rel a b) (hi : a.insts = a'.insts) (hl : a.loops = a'.loops)
-    (hi' : b'.insts = b.insts) (hl' : b'.loops = b.loops) (ht : b'.tables.length = a'.tables.length) : Rel a' b' := by
-  refine ⟨ht, by rw [← hi, hi']; exact h.pre, by rw [hl', ← hl]; exact h.llen, by rw [hl', ← hl]; exact h.ltail, ?_⟩
+    (hi' : b'.insts = b.insts) (hl' : b'.loops = b.loops) (ht : b'.tables.length = a'.tables.length)
+    (hc : a'.constants.size ≤ b'.constants.size) : Rel a' b' := by
+  refine ⟨ht, by rw [← hi, hi']; exact h.pre, by rw [hl', ← hl]; exact h.llen, by rw [hl', ← hl]; exact h.ltail, ?_, hc⟩
   intro l l' h1 h2 p
   rw [← hl] at h1; rw [hl'] at h2
   have := h.lhead l l' h1 h2 p
@@ -378,16 +411,19 @@ theorem pre_append (a : Array UInt8) (bs : List UInt8) : Pre a (a ++ bs.toArray)
 /-- operands that are fine for every stream: a jump-class instruction is emitted with the
     placeholder 0, SETUPTRY with 0 0 -/
 def StaticArgs (op : Nat) (args : List Int) : Prop :=
-  (isJumpOp op = true → args = [0]) ∧ (op = OpSetupTry → args = [0, 0])
+  (isJumpOp op = true → args = [0]) ∧ (op = OpSetupTry → args = [0, 0]) ∧ isConstOp op = false
 
-theorem StaticArgs.argsOK {op : Nat} {args : List Int} (h : StaticArgs op args) (a : Array UInt8) : ArgsOK a op args :=
-  ⟨fun hj => ⟨0, by rw [h.1 hj]; rfl, .refl 0⟩, fun ht => ⟨0, 0, by rw [h.2 ht]; rfl, .refl 0, .refl 0⟩⟩
+theorem StaticArgs.argsOK {op : Nat} {args : List Int} (h : StaticArgs op args) (nc : Nat) (a : Array UInt8) :
+    ArgsOK nc a op args :=
+  ⟨fun hj => ⟨0, by rw [h.1 hj]; rfl, .refl 0⟩, fun ht => ⟨0, 0, by rw [h.2.1 ht]; rfl, .refl 0, .refl 0⟩,
+   fun hc => by rw [h.2.2] at hc; cases hc⟩
 
 /-- `emit`: an error (never a panic) when the operands do not fit; otherwise the new instruction
     starts at the old end of the stream, which is a boundary of the new stream -/
 theorem sat_emit {pos : Pos} {op : Nat} {args : List Int} {s : CState} {Q : Nat → CState → Prop}
-    (hs : Inv s) (hop : op < numOpcodes) (harg : ArgsOK s.insts op args)
-    (h : ∀ s', Inv s' → Rel s s' → Bd s'.insts s.insts.size → s'.tables = s.tables → Q s.insts.size s') :
+    (hs : Inv s) (hop : op < numOpcodes) (harg : ArgsOK s.constants.size s.insts op args)
+    (h : ∀ s', Inv s' → Rel s s' → Bd s'.insts s.insts.size → s'.tables = s.tables →
+      (∃ opb, s'.insts[s.insts.size]? = some opb ∧ opb.toNat = op) → Q s.insts.size s') :
     Sat (emit pos op args) s Q := by
   unfold emit
   rw [if_neg (by omega)]
@@ -409,14 +445,19 @@ theorem sat_emit {pos : Pos} {op : Nat} {args : List Int} {s : CState} {Q : Nat 
     apply Sat.pure
     have hpre := pre_append s.insts (UInt8.ofNat op :: rest)
     apply h
-    · exact ⟨hs.ne, hs.tabs, Walk.append_inst hs.walk hop hl, fun l hl p hp => (hs.loops l hl p hp).pre hpre, hs.consts, htg⟩
+    · exact ⟨hs.ne, hs.tabs, Walk.append_inst hs.walk hop hl,
+        fun l hl p hp => ⟨(hs.loops l hl p hp).1.pre hpre, (hs.loops l hl p hp).2.pre hpre⟩, hs.consts, htg⟩
     · exact Rel.of_pre rfl hpre rfl
     · exact Bd.append_inst hs.walk
     · rfl
+    · refine ⟨UInt8.ofNat op, by simp [Array.getElem?_append], ?_⟩
+      simp [UInt8.toNat_ofNat']
+      unfold numOpcodes at hop
+      omega
 
 theorem good_emit {pos : Pos} {op : Nat} {args : List Int} (hop : op < numOpcodes) (ha : StaticArgs op args) :
     Good (emit pos op args) :=
-  fun s hs => sat_emit hs hop (ha.argsOK s.insts) fun _ h1 h2 _ _ => ⟨h1, h2, trivial⟩
+  fun s hs => sat_emit hs hop (ha.argsOK _ s.insts) fun _ h1 h2 _ _ _ => ⟨h1, h2, trivial⟩
 
 theorem good_emit_ {pos : Pos} {op : Nat} {args : List Int} (hop : op < numOpcodes) (ha : StaticArgs op args) :
     Good (emit_ pos op args) := by
@@ -425,20 +466,26 @@ theorem good_emit_ {pos : Pos} {op : Nat} {args : List Int} (hop : op < numOpcod
 
 /-! ### sequences that patch earlier instructions -/
 
-/-- `St s0 ps ts s`: `s` is reached from `s0`; the positions `ps` were emitted since `s0` and are
-    inner boundaries of the current stream; the offsets `ts` (values of `len(c.instructions)` read
-    on the way, and emitted positions) are boundaries of the current stream -/
+/-- `St s0 ps ts s`: `s` is reached from `s0`; the positions `ps` were emitted since `s0`, are
+    inner boundaries of the current stream and hold a jump-class / SETUPTRY instruction; the offsets
+    `ts` (values of `len(c.instructions)` read on the way, and emitted positions) are boundaries of
+    the current stream -/
 structure St (s0 : CState) (ps ts : List Nat) (s : CState) : Prop where
   inv : Inv s
   rel : Rel s0 s
-  pend : ∀ p ∈ ps, Bd s.insts p ∧ s0.insts.size ≤ p
+  pend : ∀ p ∈ ps, (Bd s.insts p ∧ Jumpy s.insts p) ∧ s0.insts.size ≤ p
   tgt : ∀ t ∈ ts, Walk s.insts 0 t
 
 theorem St.init {s : CState} (h : Inv s) : St s [] [] s :=
   ⟨h, Rel.refl s, fun _ hp => by simp at hp, fun _ hp => by simp at hp⟩
 
 theorem St.step {s0 s s' : CState} {ps ts : List Nat} (h : St s0 ps ts s) (hi : Inv s') (hr : Rel s s') : St s0 ps ts s' :=
-  ⟨hi, h.rel.trans hr, fun p hp => ⟨(h.pend p hp).1.pre hr.pre, (h.pend p hp).2⟩, fun t ht => (h.tgt t ht).pre hr.pre⟩
+  ⟨hi, h.rel.trans hr, fun p hp => ⟨⟨(h.pend p hp).1.1.pre hr.pre, (h.pend p hp).1.2.pre hr.pre⟩, (h.pend p hp).2⟩,
+   fun t ht => (h.tgt t ht).pre hr.pre⟩
+
+theorem St.weaken {s0 s : CState} {ps ts ps' ts' : List Nat} (h : St s0 ps ts s) (hsub : ∀ p ∈ ps', p ∈ ps)
+    (hsub' : ∀ t ∈ ts', t ∈ ts) : St s0 ps' ts' s :=
+  ⟨h.inv, h.rel, fun p hp => h.pend p (hsub p hp), fun t ht => h.tgt t (hsub' t ht)⟩
 
 theorem st_good_bind {α β} {P : α → Prop} {m : CM α} {f : α → CM β} {s0 s : CState} {ps ts : List Nat}
     {Q : β → CState → Prop} (hm : GoodP P m) (hst : St s0 ps ts s)
@@ -468,8 +515,9 @@ theorem st_curPos_bind {β} {f : Nat → CM β} {s0 s : CState} {ps ts : List Na
 /-- the arguments of an instruction are tracked boundaries (or 0) -/
 def ArgsIn (ts : List Nat) (args : List Int) : Prop := ∀ x ∈ args, ∃ t : Nat, x = (t : Int) ∧ (t = 0 ∨ t ∈ ts)
 
-theorem ArgsIn.argsOK {ts : List Nat} {args : List Int} {a : Array UInt8} {op : Nat} (h : ArgsIn ts args)
-    (hts : ∀ t ∈ ts, Walk a 0 t) (hlen : (operandWidths op).length = args.length) : ArgsOK a op args := by
+theorem ArgsIn.argsOK {ts : List Nat} {args : List Int} {a : Array UInt8} {op nc : Nat} (h : ArgsIn ts args)
+    (hts : ∀ t ∈ ts, Walk a 0 t) (hlen : (operandWidths op).length = args.length)
+    (hj : isJumpOp op = true ∨ op = OpSetupTry) : ArgsOK nc a op args := by
   have hw : ∀ x ∈ args, ∃ t : Nat, x = (t : Int) ∧ Walk a 0 t := by
     intro x hx
     obtain ⟨t, ht, h0⟩ := h x hx
@@ -477,7 +525,7 @@ theorem ArgsIn.argsOK {ts : List Nat} {args : List Int} {a : Array UInt8} {op : 
     rcases h0 with h0 | h0
     · subst h0; exact .refl 0
     · exact hts t h0
-  constructor
+  refine ⟨?_, ?_, ?_⟩
   · intro hj
     rw [isJumpOp_widths hj] at hlen
     match args, hlen, hw with
@@ -493,6 +541,9 @@ theorem ArgsIn.argsOK {ts : List Nat} {args : List Int} {a : Array UInt8} {op : 
       obtain ⟨t1, ht1, hw1⟩ := hw x (by simp)
       obtain ⟨t2, ht2, hw2⟩ := hw y (by simp)
       exact ⟨t1, t2, by rw [ht1, ht2], hw1, hw2⟩
+  · intro hc
+    rw [jumpy_not_const hj] at hc
+    cases hc
 
 theorem makeInstruction_len {op : Nat} {args : List Int} {bs : List UInt8} (h : makeInstruction op args = .ok bs) :
     (operandWidths op).length = args.length := by
@@ -501,32 +552,32 @@ theorem makeInstruction_len {op : Nat} {args : List Int} {bs : List UInt8} (h : 
   · cases h
   · rename_i hl; simpa using hl
 
-theorem st_emit_bind {β} {pos : Pos} {op : Nat} {args : List Int} {f : Nat → CM β} {s0 s : CState} {ps ts : List Nat}
-    {Q : β → CState → Prop} (hst : St s0 ps ts s) (hop : op < numOpcodes) (ha : StaticArgs op args ∨ ArgsIn ts args)
-    (h : ∀ s', St s0 (s.insts.size :: ps) (s.insts.size :: ts) s' → Sat (f s.insts.size) s' Q) :
+/-- `emit` of an instruction whose position is only used as a jump *target* (and of any
+    instruction whose position is not used): the position becomes a tracked boundary -/
+theorem st_emit_tgt_bind {β} {pos : Pos} {op : Nat} {args : List Int} {f : Nat → CM β} {s0 s : CState} {ps ts : List Nat}
+    {Q : β → CState → Prop} (hst : St s0 ps ts s) (hop : op < numOpcodes)
+    (ha : StaticArgs op args ∨ (ArgsIn ts args ∧ (isJumpOp op = true ∨ op = OpSetupTry)))
+    (h : ∀ s', St s0 ps (s.insts.size :: ts) s' → (Bd s'.insts s.insts.size ∧
+      ∃ opb, s'.insts[s.insts.size]? = some opb ∧ opb.toNat = op) → Sat (f s.insts.size) s' Q) :
     Sat (emit pos op args >>= f) s Q := by
   apply Sat.bind
   by_cases hm : ∃ bs, makeInstruction op args = .ok bs
   · obtain ⟨bs, hm⟩ := hm
-    have harg : ArgsOK s.insts op args := by
+    have harg : ArgsOK s.constants.size s.insts op args := by
       rcases ha with ha | ha
-      · exact ha.argsOK _
-      · exact ha.argsOK hst.tgt (makeInstruction_len hm)
+      · exact ha.argsOK _ _
+      · exact ha.1.argsOK hst.tgt (makeInstruction_len hm) ha.2
     apply sat_emit hst.inv hop harg
-    intro s' h1 h2 h3 _
-    apply h
+    intro s' h1 h2 h3 _ h5
     have h4 := hst.step h1 h2
-    refine ⟨h4.inv, h4.rel, ?_, ?_⟩
-    · intro p hp
-      simp at hp
-      rcases hp with hp | hp
-      · subst hp; exact ⟨h3, hst.rel.pre.1⟩
-      · exact h4.pend p hp
-    · intro t ht
+    apply h
+    · refine ⟨h4.inv, h4.rel, h4.pend, ?_⟩
+      intro t ht
       simp at ht
       rcases ht with ht | ht
       · subst ht; exact h3.1
       · exact h4.tgt t ht
+    · exact ⟨h3, h5⟩
   · -- the operands do not fit: an error
     unfold emit
     rw [if_neg (by omega)]
@@ -538,19 +589,33 @@ theorem st_emit_bind {β} {pos : Pos} {op : Nat} {args : List Int} {f : Nat → 
       · exact Sat.throw_bare
       · exact Sat.throw_err
 
-theorem St.weaken {s0 s : CState} {ps ts ps' ts' : List Nat} (h : St s0 ps ts s) (hsub : ∀ p ∈ ps', p ∈ ps)
-    (hsub' : ∀ t ∈ ts', t ∈ ts) : St s0 ps' ts' s :=
-  ⟨h.inv, h.rel, fun p hp => h.pend p (hsub p hp), fun t ht => h.tgt t (hsub' t ht)⟩
+/-- `emit` of a jump-class / SETUPTRY instruction that is patched later: its position is pending -/
+theorem st_emit_bind {β} {pos : Pos} {op : Nat} {args : List Int} {f : Nat → CM β} {s0 s : CState} {ps ts : List Nat}
+    {Q : β → CState → Prop} (hst : St s0 ps ts s) (hop : op < numOpcodes) (hj : isJumpOp op = true ∨ op = OpSetupTry)
+    (ha : StaticArgs op args ∨ ArgsIn ts args)
+    (h : ∀ s', St s0 (s.insts.size :: ps) (s.insts.size :: ts) s' → Sat (f s.insts.size) s' Q) :
+    Sat (emit pos op args >>= f) s Q := by
+  apply st_emit_tgt_bind hst hop (ha.imp id fun h => ⟨h, hj⟩)
+  intro s' hst' ⟨hbd, opb, hget, hopb⟩
+  apply h
+  refine ⟨hst'.inv, hst'.rel, ?_, hst'.tgt⟩
+  intro p hp
+  simp at hp
+  rcases hp with hp | hp
+  · subst hp
+    exact ⟨⟨hbd, opb, hget, by rw [hopb]; exact hj⟩, hst.rel.pre.1⟩
+  · exact hst'.pend p hp
 
 theorem st_emit__bind {β} {pos : Pos} {op : Nat} {args : List Int} {f : Unit → CM β} {s0 s : CState} {ps ts : List Nat}
-    {Q : β → CState → Prop} (hst : St s0 ps ts s) (hop : op < numOpcodes) (ha : StaticArgs op args ∨ ArgsIn ts args)
+    {Q : β → CState → Prop} (hst : St s0 ps ts s) (hop : op < numOpcodes)
+    (ha : StaticArgs op args ∨ (ArgsIn ts args ∧ (isJumpOp op = true ∨ op = OpSetupTry)))
     (h : ∀ s', St s0 ps ts s' → Sat (f ()) s' Q) : Sat (emit_ pos op args >>= f) s Q := by
   unfold emit_
   rw [bind_assoc]
-  apply st_emit_bind hst hop ha
-  intro s' hst'
+  apply st_emit_tgt_bind hst hop ha
+  intro s' hst' _
   rw [pure_bind]
-  exact h s' (hst'.weaken (fun p hp => by simp [hp]) (fun t ht => by simp [ht]))
+  exact h s' (hst'.weaken (fun p hp => hp) (fun t ht => by simp [ht]))
 
 theorem Bd.op {a : Array UInt8} {p : Nat} (h : Bd a p) (hw : Walk a 0 a.size) :
     ∃ op, a[p]? = some op ∧ op.toNat < numOpcodes := by
@@ -568,8 +633,11 @@ theorem st_changeOperand {p : Nat} {args : List Int} {s0 s : CState} {ps ts : Li
   unfold changeOperand
   apply Sat.bind
   apply Sat.get
-  obtain ⟨hbd, hge⟩ := hst.pend p hp
+  obtain ⟨⟨hbd, hjy⟩, hge⟩ := hst.pend p hp
   obtain ⟨op, hop, hlt⟩ := hbd.op hst.inv.walk
+  have hjop : isJumpOp op.toNat = true ∨ op.toNat = OpSetupTry := by
+    obtain ⟨op', h1, h2⟩ := hjy
+    rw [hop] at h1; injection h1 with h1; subst h1; exact h2
   simp only [hop]
   rw [if_neg (by omega)]
   cases hm : makeInstruction op.toNat args with
@@ -577,7 +645,7 @@ theorem st_changeOperand {p : Nat} {args : List Int} {s0 s : CState} {ps ts : Li
   | ok bs =>
     simp only
     have htg := TargetsOK.patch_inst hst.inv.walk hst.inv.targets hbd.1 hop hm
-      (hargs.argsOK hst.tgt (makeInstruction_len hm))
+      (hargs.argsOK hst.tgt (makeInstruction_len hm) hjop)
     obtain ⟨rest, hbs, hl⟩ := makeInstruction_ok hm
     subst hbs
     have hofn : UInt8.ofNat op.toNat = op := by simp
@@ -586,12 +654,14 @@ theorem st_changeOperand {p : Nat} {args : List Int} {s0 s : CState} {ps ts : Li
     apply h
     have hwalk : ∀ j, Walk s.insts 0 j → Walk (patch s.insts p (op :: rest)) 0 j :=
       fun j hj => Walk.patch_inst hj hbd.1 hop hl
-    have hbd' : ∀ q, Bd s.insts q → Bd (patch s.insts p (op :: rest)) q :=
-      fun q hq => ⟨hwalk q hq.1, by rw [size_patch]; exact hq.2⟩
+    have hbd' : ∀ q, Bd s.insts q ∧ Jumpy s.insts q → Bd (patch s.insts p (op :: rest)) q ∧ Jumpy (patch s.insts p (op :: rest)) q := by
+      intro q ⟨hq, ⟨oq, hoq, hjq⟩⟩
+      exact ⟨⟨hwalk q hq.1, by rw [size_patch]; exact hq.2⟩,
+        oq, by rw [Walk.patch_get hq.1 hbd.1 hop hl]; exact hoq, hjq⟩
     refine ⟨⟨hst.inv.ne, hst.inv.tabs, ?_, fun l hl q hq => hbd' q (hst.inv.loops l hl q hq), hst.inv.consts, htg⟩, ?_, ?_, ?_⟩
     · have := hwalk _ hst.inv.walk
       simpa [size_patch] using this
-    · refine ⟨hst.rel.tlen, Pre.patch hst.rel.pre hge, hst.rel.llen, hst.rel.ltail, hst.rel.lhead⟩
+    · refine ⟨hst.rel.tlen, Pre.patch hst.rel.pre hge, hst.rel.llen, hst.rel.ltail, hst.rel.lhead, hst.rel.csz⟩
     · intro q hq
       exact ⟨hbd' q (hst.pend q hq).1, (hst.pend q hq).2⟩
     · intro t ht
